@@ -147,6 +147,8 @@ func Run(tier string, seed int64, outDir string) *common.Meta {
 		}
 	}
 
+	common.WriteFile(filepath.Join(genDir, "rgtarget", "a.go"), "package rgtarget\n\nfunc f(s string, n int) {\n\tprintln(\"x\")\n\tprintln(s, n)\n\tprint(n)\n}\n")
+
 	fset := token.NewFileSet()
 	t0 := time.Now()
 	s1, err := fw.LoadS1(fset)
@@ -251,6 +253,9 @@ func Run(tier string, seed int64, outDir string) *common.Meta {
 
 	// ---- correspondence cases for Model_Determ (dupImport): the implementation's output under the permutation it chose ----
 	writeDupImportCases(meta, outDir, fset, gen, s2, infos)
+
+	// ---- configuration-directed: several user rule files whose load order is observable ----
+	ruleFilesStream(meta, tier, outDir, gen, infos)
 
 	// ---- separate processes ----
 	cliStream(meta, tier, genDir, s1, cliRuns)
@@ -390,6 +395,103 @@ func cliStream(meta *common.Meta, tier, genDir string, s1 []*fw.Pkg, runs int) {
 	meta.Distribution["cli_processes"] = total
 }
 
+// ruleFilesStream: the dynamic `ruleguard` checker is constructed N times with the same list of rule files. The files
+// are built so that the order in which they are loaded is observable: they all declare a group of the same name (the
+// engine rejects the second and every later declaration, so the file loaded first wins and — with the default failOn —
+// the others are skipped as a whole, including their private groups); with failOn=all the init error names the loser.
+func ruleFilesStream(meta *common.Meta, tier, outDir string, gen []*fw.Pkg, infos []*linter.CheckerInfo) {
+	info := fw.InfoByName(infos)["ruleguard"]
+	var target *fw.File
+	for _, p := range gen {
+		if p.Name == "rgtarget" && len(p.Files) > 0 {
+			target = p.Files[0]
+		}
+	}
+	if info == nil || target == nil || info.Params["rules"] == nil || info.Params["failOn"] == nil {
+		meta.TieBroken = append(meta.TieBroken, "rule-file order stream cannot run (ruleguard checker, its parameters or the target file missing)")
+		return
+	}
+	dir := filepath.Join(outDir, "rulefiles")
+	os.RemoveAll(dir)
+	var files []string
+	for i := 1; i <= 5; i++ {
+		src := fmt.Sprintf(`//go:build ignore
+// +build ignore
+
+package gorules
+
+import "github.com/quasilyte/go-ruleguard/dsl"
+
+func verifShared(m dsl.Matcher) {
+	m.Match("println($*_)").Report("shared group as declared in file %d")
+}
+
+func verifOnly%d(m dsl.Matcher) {
+	m.Match("print($_)").Report("private group of file %d")
+}
+`, i, i, i)
+		name := filepath.Join(dir, fmt.Sprintf("rules_%d.go", i))
+		common.WriteFile(name, src)
+		files = append(files, name)
+	}
+	n := 16
+	if tier == "thorough" {
+		n = 80
+	}
+	rulesP, failP := info.Params["rules"], info.Params["failOn"]
+	oldRules, oldFail := rulesP.Value, failP.Value
+	defer func() { rulesP.Value, failP.Value = oldRules, oldFail }()
+	type variant struct {
+		name, rules, failOn string
+	}
+	variants := []variant{
+		{"five files, default failOn", strings.Join(files, ","), ""},
+		{"five files, failOn=all", strings.Join(files, ","), "all"},
+		{"glob + explicit duplicates", filepath.Join(dir, "rules_*.go") + "," + files[2] + "," + files[0], ""},
+	}
+	runs := 0
+	for _, v := range variants {
+		rulesP.Value, failP.Value = v.rules, v.failOn
+		var first string
+		seen := map[string]int{}
+		for r := 0; r < n; r++ {
+			ctx := linter.NewContext(target.Pkg.Fset, fw.Sizes)
+			c, err := linter.NewChecker(ctx, info)
+			runs++
+			var out string
+			if err != nil {
+				out = "init error: " + err.Error()
+			} else {
+				ctx.SetPackageInfo(target.Pkg.Info, target.Pkg.Types)
+				ctx.SetFileInfo(target.Name, target.AST)
+				o := fw.SafeCheck(c, target)
+				out = strings.Join(fw.Strs(o.Ws), "\n") + o.Panic
+			}
+			out = strings.ReplaceAll(out, dir, "<rules>")
+			seen[out]++
+			if r == 0 {
+				first = out
+			}
+		}
+		if first == "" && v.failOn == "" {
+			meta.TieBroken = append(meta.TieBroken, "rule-file stream produced no diagnostics at all ("+v.name+")")
+		}
+		meta.Notes = append(meta.Notes, "rule-file stream ("+v.name+"): "+strings.ReplaceAll(clipTo(first, 300), "\n", " | "))
+		if len(seen) > 1 {
+			var outs []string
+			for o, k := range seen {
+				outs = append(outs, fmt.Sprintf("%dx: %s", k, o))
+			}
+			sort.Strings(outs)
+			meta.Fail("C02/ruleguard/rule-file-order", fmt.Sprintf("the dynamic ruleguard checker constructed %d times with the same -@ruleguard.rules list (%s) behaves in %d different ways", n, v.name, len(seen)),
+				map[string]interface{}{"rules": strings.ReplaceAll(v.rules, dir, "<rules>"), "failOn": v.failOn, "distinct_outcomes": outs, "target": string(target.Src),
+					"rule_file_template": "every file declares group verifShared (message names the file) and a private group verifOnly<i>",
+					"replay":             "go-critic check -enable=ruleguard -@ruleguard.rules=<list> on the target file, several times (cwd inside the repository module so that the dsl import resolves)"})
+		}
+	}
+	meta.Distribution["rule_file_constructions"] = runs
+}
+
 // analysisStream repeats the go/analysis front-end (parallel driver: one pass per package, checkers constructed per
 // pass) on a multi-package workspace; every run must print the same diagnostics and end the same way.
 func analysisStream(meta *common.Meta, tier, outDir string) {
@@ -418,8 +520,9 @@ func analysisStream(meta *common.Meta, tier, outDir string) {
 		sort.Strings(ls)
 		return fmt.Sprintf("exit=%d\n", code) + strings.Join(ls, "\n"), ls
 	}
-	var first string
+	var first, firstRaw string
 	var firstLines []string
+	rawReported := false
 	n := 0
 	for r := 0; r < runs; r++ {
 		so, se, code, err := common.RunSplit(240*time.Second, ws, common.GoEnv("GOMAXPROCS=16"), bin, args...)
@@ -429,6 +532,16 @@ func analysisStream(meta *common.Meta, tier, outDir string) {
 			break
 		}
 		out, ls := norm(so, se, code)
+		raw := se + "\n" + so
+		if r == 0 {
+			firstRaw = raw
+			checkAnalysisOrder(meta, ws, raw)
+		} else if raw != firstRaw && out == first && !rawReported {
+			rawReported = true
+			a, b := firstDiffLine(firstRaw, raw)
+			meta.Fail("C02/analyzer/unstable-order", fmt.Sprintf("two go-critic-analysis processes print the same diagnostics in a different order (run 1 vs run %d)", r+1),
+				map[string]interface{}{"dir": ws, "args": args, "workspace": "harness/internal/c04.Workspace", "first_differing_line_run_1": a, "first_differing_line_run_k": b})
+		}
 		if r == 0 {
 			first, firstLines = out, ls
 			meta.AddSample(map[string]interface{}{"analysis_workspace": fmt.Sprintf("%d packages x %d files", nPkgs, nFiles), "exit": code, "lines": len(ls)})
@@ -476,7 +589,140 @@ func analysisStream(meta *common.Meta, tier, outDir string) {
 		}
 		break
 	}
+	// the twin front-end must obey the same report order
+	if twin := filepath.Join(common.BinDir(), "gocritic-analysis"); fileExists(twin) {
+		so, se, _, err := common.RunSplit(240*time.Second, ws, common.GoEnv("GOMAXPROCS=16"), twin, args...)
+		n++
+		if err == nil {
+			checkAnalysisOrder(meta, ws, se+"\n"+so)
+		}
+	}
 	meta.Distribution["analysis_processes"] = n
+}
+
+func fileExists(p string) bool {
+	_, err := os.Stat(p)
+	return err == nil
+}
+
+func firstDiffLine(a, b string) (string, string) {
+	la, lb := strings.Split(a, "\n"), strings.Split(b, "\n")
+	for i := 0; i < len(la) && i < len(lb); i++ {
+		if la[i] != lb[i] {
+			return fmt.Sprintf("line %d: %s", i+1, la[i]), fmt.Sprintf("line %d: %s", i+1, lb[i])
+		}
+	}
+	return fmt.Sprintf("%d lines", len(la)), fmt.Sprintf("%d lines", len(lb))
+}
+
+var anPosRE = regexp.MustCompile(`^(\S+\.go):(\d+):(\d+): (\w+): `)
+
+// checkAnalysisOrder: the order in which the go/analysis front-end reports the diagnostics of a package must be the
+// library's own order — files in the package's file order, per file the checkers in registry order, per checker the
+// order of Check's result. The expected sequence is computed in-process from the same workspace.
+func checkAnalysisOrder(meta *common.Meta, ws, raw string) {
+	fset := token.NewFileSet()
+	pkgs, err := fw.LoadDirs(fset, ws, "ws", []string{"./..."})
+	if err != nil || len(pkgs) == 0 {
+		meta.TieBroken = append(meta.TieBroken, fmt.Sprintf("analysis workspace does not load in-process: %v", err))
+		return
+	}
+	infos := fw.Infos()
+	type key struct {
+		file      string
+		line, col int
+		checker   string
+	}
+	want := map[string][]key{} // package dir -> sequence
+	outs := make([]map[*fw.File][]fw.Outcome, len(pkgs))
+	common.Must(fw.ForEachPkg(fset, infos, pkgs, func(set *fw.Set, pi int) {
+		outs[pi] = map[*fw.File][]fw.Outcome{}
+		for _, f := range pkgs[pi].Files {
+			set.Enter(f, true)
+			os := make([]fw.Outcome, len(infos))
+			for ci, c := range set.Checkers {
+				os[ci] = fw.SafeCheck(c, f)
+			}
+			outs[pi][f] = os
+		}
+	}))
+	for pi, p := range pkgs {
+		for _, f := range p.Files {
+			for ci, info := range infos {
+				if info.Name == "ruleguard" { // the binary runs the dynamic checker without user rules
+					continue
+				}
+				for _, w := range outs[pi][f][ci].Ws {
+					pos := fset.Position(token.Pos(f.Base + w.Off))
+					want[p.Dir] = append(want[p.Dir], key{f.Path, pos.Line, pos.Column, info.Name})
+				}
+			}
+		}
+	}
+	got := map[string][]key{}
+	for _, l := range strings.Split(raw, "\n") {
+		if m := anPosRE.FindStringSubmatch(l); m != nil {
+			var ln, col int
+			fmt.Sscan(m[2], &ln)
+			fmt.Sscan(m[3], &col)
+			d := filepath.Dir(m[1])
+			got[d] = append(got[d], key{m[1], ln, col, m[4]})
+		}
+	}
+	checked, multi := 0, 0
+	for dir, w := range want {
+		g := got[dir]
+		checked++
+		files := map[string]bool{}
+		for _, k := range w {
+			files[k.file] = true
+		}
+		if len(files) > 1 {
+			multi++
+		}
+		same := len(g) == len(w)
+		at := -1
+		for i := 0; same && i < len(w); i++ {
+			if g[i] != w[i] {
+				same = false
+				at = i
+			}
+		}
+		if same {
+			continue
+		}
+		// same multiset in another order, or different content?
+		cnt := map[key]int{}
+		for _, k := range w {
+			cnt[k]++
+		}
+		for _, k := range g {
+			cnt[k]--
+		}
+		setEq := true
+		for _, n := range cnt {
+			if n != 0 {
+				setEq = false
+			}
+		}
+		if !setEq {
+			// content differences between front-ends are C08's subject; only the order is judged here
+			meta.Notes = append(meta.Notes, "analysis binary and library report different diagnostics for "+dir+" (not an order question; see C08)")
+			continue
+		}
+		wit := map[string]interface{}{"package_dir": dir, "files_in_package": len(files), "workspace": "harness/internal/c04.Workspace"}
+		if at >= 0 {
+			wit["first_difference_at"] = at
+			wit["binary_reports"] = fmt.Sprint(g[at])
+			wit["library_order_expects"] = fmt.Sprint(w[at])
+		}
+		meta.Fail("C02/analyzer/report-order", "go-critic-analysis reports the diagnostics of a multi-file package in an order that is not (file order, checker order, Check order)", wit)
+	}
+	meta.Distribution["analysis_order_packages_checked"] = checked
+	meta.Distribution["analysis_order_multi_file_packages"] = multi
+	if multi == 0 {
+		meta.TieBroken = append(meta.TieBroken, "no multi-file package in the analysis workspace: report order not exercised")
+	}
 }
 
 var anDiagRE = regexp.MustCompile(`^\S+\.go:\d+:\d+: (\w+): `)
@@ -498,6 +744,13 @@ func diffOnly(a, b []string) []string {
 		d = d[:8]
 	}
 	return d
+}
+
+func clipTo(s string, n int) string {
+	if len(s) > n {
+		return s[:n] + "..."
+	}
+	return s
 }
 
 func clipArgs(a []string) []string {
